@@ -71,7 +71,10 @@ def run(ctx):
     # reset_peer on real sockets is a scenario family of its own (an in-memory link cannot carry a TCP reset)
     def side(ctx2, proof):
         from . import tcp as T
-        return T.reset_peer_runs(ctx2, (12 if ctx2.tier == "quick" else 300) * (1 if proof["build_ok"] else 3))
+        f1, c1 = T.reset_peer_runs(ctx2, (12 if ctx2.tier == "quick" else 300) * (1 if proof["build_ok"] else 3))
+        f2, c2 = T.slow_close_runs(ctx2, (12 if ctx2.tier == "quick" else 300) * (1 if proof["build_ok"] else 3))
+        c1.update(c2)
+        return f1 + f2, c1
 
     return L.run_link_property(
         ctx, PID, gen_cases, oracle,
@@ -79,7 +82,8 @@ def run(ctx):
         rule="slow_close (delay from {0,1,10,50,1000} ms) at positions 1-3 among noops, 0-5 writes then close; reset_peer (timeout from "
              "{0,1,40,100,600} ms) added at link start, first input a write or the close; real-socket runs with reset_peer present at connect "
              "time (timeouts 0/20/80/1100 ms, both streams, closer client/upstream/none, payload 0-64 KiB): the peers must see a connection "
-             "reset, no data in the toxic's direction, not before the timeout; non-trivial = delay/timeout > 0; distinct by JSON",
+             "reset, no data in the toxic's direction, not before the timeout; real-socket runs with slow_close (300-900 ms) where the sender closes "
+             "its socket and the receiver keeps sending small messages the other way during the delay: no end of stream before the delay; non-trivial = delay/timeout > 0; distinct by JSON",
         nontrivial=lambda c: c.get("reset_T", 0) > 0 or any(t["type"] == "slow_close" and t["attributes"]["delay"] > 0 for t in c["chain"]),
         assumptions=["that SO_LINGER 0 + close is seen as a connection reset by the peer is kernel behaviour: observed on real sockets, not modelled",
                      "reset_peer cases use AddToxic on a started link and are judged by the oracle only (the timed model covers static chains)"],
